@@ -58,6 +58,7 @@ func installHook() {
 type Event struct {
 	Kind string
 	Args []string
+	At   int64 // instruction count (step hook) when the host call happened
 }
 
 type Outcome struct {
@@ -208,7 +209,7 @@ func (m *Impl) record(kind string, L *lua.LState) {
 	for i := 1; i <= n; i++ {
 		args[i-1] = m.Tok(L.Get(i))
 	}
-	m.events = append(m.events, Event{kind, args})
+	m.events = append(m.events, Event{kind, args, atomic.LoadInt64(&m.B.Count)})
 }
 
 func (m *Impl) registerHost() {
